@@ -1,1 +1,62 @@
-(* C15 *)
+(* C15 - layout and template comments between syntactic elements change nothing.  Theorems only. *)
+From Coq Require Import Lia.
+From Ructe Require Import Nom NomFacts Utf8 Spacelike Expression TemplateExpr Template Emit
+                          ParserProofs SpaceProofs TextProofs.
+Local Open Scope list_scope.
+
+(* any run built from whitespace (space, tab, CR, LF: LF and CRLF line breaks alike) and closed
+   comments (any body without "*@", multi-line bodies and bodies ending in stars included) is
+   skipped by spacelike, up to the first byte that is neither whitespace nor opens a comment *)
+Theorem spacelike_skips : forall s rest : bytes, layout s -> stops rest -> spacelike (s ++ rest) = Ok tt rest.
+Proof. exact spacelike_skips_lemma. Qed.
+
+(* hence at every position where the grammar calls spacelike before a parser q -- after a
+   directive keyword, before `{`, around else / in / =>, between match arms, after call commas and
+   block arguments, around @use lines, after the declaration -- two different layouts give the
+   same result: only what follows the layout matters *)
+Theorem layout_irrelevant_at_spacelike : forall {A} (q : parser A) (s1 s2 rest : bytes),
+  layout s1 -> layout s2 -> stops rest ->
+  preceded spacelike q (s1 ++ rest) = preceded spacelike q (s2 ++ rest) /\
+  preceded spacelike q (s1 ++ rest) = q rest.
+Proof.
+  intros A q s1 s2 rest L1 L2 St. unfold preceded, bind.
+  rewrite (spacelike_skips_lemma s1 rest L1 St), (spacelike_skips_lemma s2 rest L2 St). split; reflexivity.
+Qed.
+Theorem layout_irrelevant_after : forall {A} (p : parser A) (s1 s2 i rest : bytes) (a : A),
+  p i = Ok a [] -> layout s1 -> layout s2 -> stops rest ->
+  (forall t, p (i ++ t) = Ok a t) ->
+  terminated p spacelike (i ++ s1 ++ rest) = terminated p spacelike (i ++ s2 ++ rest).
+Proof.
+  intros A p s1 s2 i rest a _ L1 L2 St H. unfold terminated, bind, pmap.
+  rewrite !H. now rewrite (spacelike_skips_lemma s1 rest L1 St), (spacelike_skips_lemma s2 rest L2 St).
+Qed.
+
+(* the layout inside a `let` condition is normalised by the parser itself *)
+Theorem let_condition_respaced : forall E n lhs rhs i r1 r2 r3 r4,
+  spacelike i = Ok tt r1 -> expression E r1 = Ok lhs r2 ->
+  delimited spacelike (char 61) spacelike r2 = Ok 61%N r3 -> expression E r3 = Ok rhs r4 ->
+  cond_expression E n (b "let" ++ i) = Ok (b "let " ++ lhs ++ b " = " ++ rhs) r4.
+Proof.
+  intros E n lhs rhs i r1 r2 r3 r4 H1 H2 H3 H4. unfold cond_expression.
+  assert (O : opt (tag (b "let")) (b "let" ++ i) = Ok (Some (b "let")) i) by reflexivity. rewrite O.
+  unfold pmap, pair, bind, preceded, bind, context, pmap. rewrite H1, H2, H3, H4. reflexivity.
+Qed.
+
+Example layouts :
+  layout (b " " ++ [9%N; 13%N; 10%N] ++ b "@* c *@" ++ b "@*" ++ [10%N] ++ b " multi * @ line" ++ [10%N] ++ b "*@@**@@* x **@ ") /\
+  stops (b "{") /\ stops (b "else") /\ stops (b "@if") /\ stops [].
+Proof.
+  split.
+  - repeat first [ apply L_nil
+                 | apply L_ws; [reflexivity|]
+                 | apply (L_cmt (b " c ")); [reflexivity|]
+                 | apply (L_cmt ([10%N] ++ b " multi * @ line" ++ [10%N])); [reflexivity|]
+                 | apply (L_cmt []); [reflexivity|]
+                 | apply (L_cmt (b " x *")); [reflexivity|] ].
+  - cbn. repeat split; try discriminate; intros; try discriminate.
+Qed.
+
+Redirect "assumptions/C15.spacelike_skips" Print Assumptions spacelike_skips.
+Redirect "assumptions/C15.layout_irrelevant_at_spacelike" Print Assumptions layout_irrelevant_at_spacelike.
+Redirect "assumptions/C15.layout_irrelevant_after" Print Assumptions layout_irrelevant_after.
+Redirect "assumptions/C15.let_condition_respaced" Print Assumptions let_condition_respaced.
